@@ -4,8 +4,12 @@
 package rpc
 
 import (
+	"errors"
 	"github.com/hslam/code"
 )
+
+// errMalformed is returned when a header cannot be decoded.
+var errMalformed = errors.New("code: malformed data")
 
 type request struct {
 	Seq           uint64
@@ -114,8 +118,12 @@ func (req *request) Marshal(buf []byte) ([]byte, error) {
 }
 
 //Unmarshal unmarshals the Request from buf and returns the number of bytes read (> 0).
-func (req *request) Unmarshal(data []byte) (uint64, error) {
-	var offset uint64
+func (req *request) Unmarshal(data []byte) (offset uint64, err error) {
+	defer func() {
+		if r := recover(); r != nil {
+			offset, err = 0, errMalformed
+		}
+	}()
 	var n uint64
 	n = code.DecodeVarint(data[offset:], &req.Seq)
 	offset += n
@@ -229,8 +237,12 @@ func (res *response) Marshal(buf []byte) ([]byte, error) {
 }
 
 //Unmarshal unmarshals the Response from buf and returns the number of bytes read (> 0).
-func (res *response) Unmarshal(data []byte) (uint64, error) {
-	var offset uint64
+func (res *response) Unmarshal(data []byte) (offset uint64, err error) {
+	defer func() {
+		if r := recover(); r != nil {
+			offset, err = 0, errMalformed
+		}
+	}()
 	var n uint64
 	n = code.DecodeVarint(data[offset:], &res.Seq)
 	offset += n
